@@ -169,7 +169,10 @@ class Ctx:
         self.notes = []
 
     # anchors ------------------------------------------------------------
-    def body(self, path, raw=False):
+    def has(self, path):
+        return self.facts.body(path) is not None
+
+    def body(self, path, raw=False, extra=()):
         b = self.facts.body(path)
         if b is None:
             raise Missing('function %s not found' % path)
@@ -177,7 +180,7 @@ class Ctx:
         if raw:
             return b
         from .inline import inlined_body
-        ib = inlined_body(self.facts, b)
+        ib = inlined_body(self.facts, b, extra=extra)
         if ib is not b:
             self.note('helper functions not present on the reference tree were inlined into %s: %s' % (path, sorted(set(ib.j.get('inlined', [])))))
         return ib
